@@ -172,6 +172,21 @@ Definition apply_trace_opt (o : trace_opts) (x : trace_opt) : trace_opts :=
 
 Definition trace_options (xs : list trace_opt) : trace_opts := fold_left apply_trace_opt xs trace_default.
 
+(* the option constructors panic on values outside their domain: SamplingPercent
+   on p < 0 or p > 100, MaxSamplingRate on r <= 0, SampleSize on s <= 0 (the same
+   guards are repeated in NewFixedSampler / NewAdaptiveSampler) *)
+Definition trace_opt_ok (x : trace_opt) : bool :=
+  match x with
+  | OPercent p => ((0 <=? p) && (p <=? 100))%Z
+  | OMaxRate r => (0 <? r)%Z
+  | OSize s => (0 <? s)%Z
+  | _ => true
+  end.
+
+(* None = building the option list panicked *)
+Definition trace_options_checked (xs : list trace_opt) : option trace_opts :=
+  if forallb trace_opt_ok xs then Some (trace_options xs) else None.
+
 (* TraceOptions.NewSampler; uint32(sampleSize) *)
 Definition new_sampler (o : trace_opts) : sampler :=
   if (0 <? t_maxrate o)%Z
@@ -324,11 +339,24 @@ Fixpoint chain (hops : list hop) (i : thdrs) : list (thdrs * tctx) :=
 Inductive layer :=
 | LRid (xs : list rid_opt) (fresh : bytes)
 | LTrace (xs : list trace_opt) (q : treq)      (* q_base is ignored: the base is the incoming context *)
+| LLog (fresh : bytes)    (* http Log / LogContext, grpc Unary/StreamServerLog(Context); fresh = shortID() if called *)
+| LDebug                  (* http Debug: transparent for the context, but its writer wrapper is no http.Flusher *)
 | LTransparent.
 
 (* what the next layer (finally the handler) finds: RequestIDKey, the incoming
    headers / metadata, the three trace keys *)
-Record sstate := { s_rid : option bytes; s_md : headers; s_tctx : tctx }.
+Record sstate := { s_rid : option bytes; s_md : headers; s_tctx : tctx;
+                   s_logs : list bytes (* the "id" every Log layer printed, outermost first *) }.
+
+(* the id a Log middleware prints: http takes RequestIDKey from the context, grpc
+   takes the first x-request-id value of the incoming metadata (which is why the
+   grpc request-id middleware writes the id back into the metadata); a new short id
+   when there is none *)
+Definition log_id (k : kind) (s : sstate) (fresh : bytes) : bytes :=
+  match k with
+  | KHttp => match s_rid s with Some id => id | None => fresh end
+  | _ => let v := hget (s_md s) XRID in if is_empty v then fresh else v
+  end.
 
 Definition set_base (q : treq) (b : tctx) : treq :=
   {| q_url := q_url q; q_matches := q_matches q; q_trace := q_trace q; q_parent := q_parent q;
@@ -342,17 +370,26 @@ Definition layer_step (k : kind) (s : sstate) (l : layer) : sstate :=
   match l with
   | LRid xs fresh =>
     let '(id, md) := rid_step k (rid_options xs) (s_md s) (s_rid s) fresh in
-    {| s_rid := Some id; s_md := match md with Some m => m | None => s_md s end; s_tctx := s_tctx s |}
+    {| s_rid := Some id; s_md := match md with Some m => m | None => s_md s end; s_tctx := s_tctx s;
+       s_logs := s_logs s |}
   | LTrace xs q =>
     let o := trace_options xs in
     {| s_rid := s_rid s; s_md := s_md s;
-       s_tctx := r_ctx (fst (trace_step k o (new_sampler o) (set_base q (s_tctx s)))) |}
+       s_tctx := r_ctx (fst (trace_step k o (new_sampler o) (set_base q (s_tctx s))));
+       s_logs := s_logs s |}
+  | LLog fresh =>
+    {| s_rid := s_rid s; s_md := s_md s; s_tctx := s_tctx s; s_logs := s_logs s ++ [log_id k s fresh] |}
+  | LDebug => s
   | LTransparent => with_cancel s
   end.
 
 Definition run_stack (k : kind) (ls : list layer) (s : sstate) : sstate := fold_left (layer_step k) ls s.
 
 Definition is_trace_layer (l : layer) : bool := match l with LTrace _ _ => true | _ => false end.
+Definition is_rid_layer (l : layer) : bool := match l with LRid _ _ => true | _ => false end.
+Definition is_log_layer (l : layer) : bool := match l with LLog _ => true | _ => false end.
+Definition is_debug_layer (l : layer) : bool := match l with LDebug => true | _ => false end.
+Definition count_logs (ls : list layer) : nat := length (filter is_log_layer ls).
 
 (* ------------------------------------------------------------------ *)
 (* Response capture                                                    *)
@@ -423,3 +460,36 @@ Definition first_commit (h : list wevent) : option Z :=
   | WriteHeader c :: _ => Some c
   | _ :: _ => Some 200%Z
   end.
+
+(* ---- what the http Log middlewares print about the response ----
+   Every Log layer wraps the writer it received in a ResponseCapture and prints its
+   StatusCode / ContentLength after the handler returned. Captures nest: each
+   forwards WriteHeader / Write to the writer underneath. Flush is different:
+   ResponseCapture always HAS a Flush method, which records the implicit 200 and
+   forwards only if the writer underneath is an http.Flusher; Debug's writer wrapper
+   is not one. So a handler's flush travels outwards through the captures until it
+   meets a Debug wrapper; a capture records it iff the flush reaches it and its
+   own underlying writer (the next wrapper outwards, or the server's writer) has a
+   Flush method — which an outer ResponseCapture always has, even when ITS flush
+   goes nowhere. *)
+Definition is_flush (e : wevent) : bool := match e with Flush | CtlFlush => true | _ => false end.
+Definition no_flush (h : list wevent) : list wevent := filter (fun e => negb (is_flush e)) h.
+
+(* outer_flusher: the writer the current layer receives has a Flush method *)
+Fixpoint log_reports_aux (outer_flusher : bool) (ls : list layer) (h : list wevent) : list cap :=
+  match ls with
+  | [] => []
+  | l :: r =>
+    if is_log_layer l then
+      let records := negb (existsb is_debug_layer r) && outer_flusher in
+      capture (if records then h else no_flush h) :: log_reports_aux true r h
+    else if is_debug_layer l then log_reports_aux false r h
+    else log_reports_aux outer_flusher r h
+  end.
+
+(* what every Log layer of the stack prints (outermost first) *)
+Definition log_reports (ls : list layer) (h : list wevent) : list cap := log_reports_aux true ls h.
+
+(* what reaches the server's writer: flushes only if no Debug wrapper is in the way *)
+Definition writer_history (ls : list layer) (h : list wevent) : list wevent :=
+  if existsb is_debug_layer ls then no_flush h else h.
